@@ -125,9 +125,15 @@ class WorldA:
     def _new_context(self) -> None:
         from cirkit.pipeline import PipelineContext
 
-        self.ctx = PipelineContext(
-            backend="torch", semiring=self.semiring, fold=self.fold, optimize=self.optimize
-        )
+        if (self.semiring, self.fold, self.optimize) == ("lse-sum", True, True) and \
+                self.plan["probe_seed"] % 2 == 0:
+            # the other public constructor (same flags)
+            self.ctx = PipelineContext.from_default_backend()
+            self.tr.count("ctx:from_default_backend")
+        else:
+            self.ctx = PipelineContext(
+                backend="torch", semiring=self.semiring, fold=self.fold, optimize=self.optimize
+            )
         self.loc = {}
         self._loc_keepalive = []
 
